@@ -102,6 +102,25 @@ def single_faults(cfg, nframes):
         yield Plan({k: (HOLD,)})
 
 
+def latency_single_faults(cfg, nframes, rng, frames=None):
+    """a wire with latency (constant, or jittering per frame) and one lost / duplicated frame: with latency a retransmission is
+    not faster than the original was, so timers that only work on a zero-delay medium show"""
+    for k in (frames if frames is not None else range(nframes)):
+        for kind in ("constant", "jitter"):
+            if kind == "constant":
+                lat = 1.0 / 128
+            else:
+                r2 = rng.__class__(rng.getrandbits(32))
+                table = [0.005 + 0.010 * r2.random() for _ in range(64)]
+
+                def lat(n, table=table):
+                    return table[n % len(table)]
+                lat.__name__ = "jitter-5-15ms"
+            yield Plan({k: (DROP,)}, latency=lat, latency_budget=0.02 * (nframes + 40))
+        if rng.random() < 0.3:
+            yield Plan({k: (DUP,)}, latency=1.0 / 128, latency_budget=0.02 * (nframes + 40))
+
+
 def fault_pairs(cfg, nframes, rng, complete):
     acts = [(DROP,), (DUP,), (DELAY, 0.5 * cfg.t_seg), (HOLD,)]
     pairs = list(itertools.combinations(range(nframes + 2), 2))
